@@ -123,6 +123,8 @@ class RatioSampler(SimpleSampler):
         ) -> None:
         if isinstance(numerator, Real):
             numerator = ConstantSampler(numerator)
+        if isinstance(denominator, Real):
+            denominator = ConstantSampler(denominator)
         self.numerator = numerator
         self.denominator = denominator
 
